@@ -58,7 +58,9 @@ def run_case(cid, rng, workdir):
     mode = rng.choice(["box", "box", "noncubic", "density", "grid"]) if not edge else rng.choice(["box", "noncubic"])
     lo, hi = (2.4, 3.2) if edge else (3.5, 6.5)
     if mode == "density":
-        opts["density"] = rng.uniform(60, 250)
+        # the box must stay larger than two steps, otherwise "one step under minimum image" is not defined and a
+        # handful of residues cannot be placed at all (the builder then retries forever)
+        opts["density"] = min(rng.uniform(60, 250), T.total_mass(sysd) * 1.6605410 / 2.6 ** 3)
         bump(res, "density_runs")
     else:
         if mode == "noncubic":
